@@ -5,6 +5,10 @@
 //!   replay <module> <behaviours.ndjson> [opts]   spec -> code
 //!   record <module> <out.ndjson> [opts]          code -> spec (trace for TLC)
 mod codec;
+mod logfile;
+mod node;
+mod sm;
+mod store;
 mod util;
 
 fn main() {
@@ -17,6 +21,10 @@ fn main() {
         ("replay", "codec") => codec::replay(&args[3..]),
         ("replay", "varint") => codec::replay_varint(&args[3..]),
         ("record", "codec") => codec::record(&args[3..]),
+        ("replay", "logfile") => logfile::replay(&args[3..]),
+        ("replay", "store") => store::replay(&args[3..]),
+        ("record", "logfile") => logfile::record(&args[3..]),
+        ("node", "run") => node::main_node(&args[3..]),
         _ => Err(anyhow::anyhow!("unknown command {} {}", args[1], args[2])),
     };
     if let Err(e) = r {
